@@ -76,6 +76,7 @@ def generate(rng, tier, idx):
         else:
             cube['requests'].append(['outside', rng.choice([0, n - 1]), 0.0])
     cube['source_seed'] = rng.randrange(1 << 30)
+    cube['wav_unit'] = rng.choice(['micron', 'micron', 'Angstrom', 'nm', 'mm', 'm'])
     sc['cube'] = cube if rng.random() < 0.6 else None
     return sc
 
@@ -253,7 +254,8 @@ def _cube_part(sc, cube, sim, out, W, trace):
         out.probe('cube_memmap')
     rng = random.Random(cube['source_seed'])
     s = gen_source(rng, len(req), 'src', flags=(1,), min_fit=1)
-    r = pipe.call(pipe.Fitter, [x * u.micron for x in req], [3.0] * len(req) * u.arcsec, d2, extinction_law=W.extinction(), av_range=[0., 0.],
+    wunit = u.Unit(cube.get('wav_unit', 'micron'))
+    r = pipe.call(pipe.Fitter, [(x * u.micron).to(wunit) for x in req], [3.0] * len(req) * u.arcsec, d2, extinction_law=W.extinction(), av_range=[0., 0.],
                   distance_range=[1., 2.] * u.kpc, use_memmap=cube['memmap'])
     if r[0] == 'ok':
         r = pipe.call(r[1].fit, make_source(s))
